@@ -368,6 +368,23 @@ def r_ja(repo, rep):
         fields = parts
         ok = len(parts) == 4 and all(len(q) == 1 for q in parts) and parts[0] == parts[1] and A(N(p), 'word') in set(subterms(parts[0][0]))
     rep.check(ok, 'R20.6', w, 'ja_of:leaf-template', 'a leaf is written "{cat word/word/pos/inflection}"', 'leaf template is %s' % [codec.tok_text(t)[:60] for t in lt])
+    # the surface form is written through utils.normalize (bracket names -> brackets) and read back literally: every
+    # other word must pass through unchanged
+    if ok:
+        wt = parts[0][0]
+        if wt[0] == 'call' and wt[1][0] == 'name' and wt[2] == (A(N(p), 'word'),):
+            um = repo.module('depccg/utils.py')
+            f_ = um.get(wt[1][1], required=False)
+            if f_ is not None:
+                try:
+                    whole, repl = codec.whole_word_map(f_)
+                    same = not repl
+                    why = 'rewrites %s inside words' % repl if repl else ''
+                except AnalysisError as e:
+                    same, why = False, str(e)
+                rep.check(same, 'R20.6', '%s:%s %s' % (um.rel, f_.lineno, f_.name), 'ja_of:word-verbatim',
+                          'words other than the %d bracket names are written exactly as stored (the reader takes the text literally)' % (len(whole) if same else 0),
+                          '%s does not leave other words unchanged (%s): the Japanese reader reads back a different word' % (f_.name, why))
     nt = codec.fstr_tokens(node)
     okn = len(nt) == 3 and nt[0] == ['{', A(N(p), 'op_symbol')] and nt[1] == [A(N(p), 'cat')] and nt[2][-1] == '}' and \
         nt[2][0][0] == 'call' and nt[2][0][1] == A(C(' '), 'join')
